@@ -23,6 +23,7 @@ RULE = (
     "disk backing files (VMX sorted, XML kinds in document order) and VMX.parse().attr equals the lower-cased last-wins "
     "dictionary; a second disks() call (optionally after peeking at the first entry, optionally after a second configuration "
     "of the same kind was parsed and listed) gives the same list. Non-trivial = >= 1 disk and >= 1 non-disk device."
+    " The VMX dictionary also as the encrypted part of an encrypted configuration (unlocked directly or after a failed attempt); TAB characters between key and '='; OVF File / Disk elements with same-named attributes of foreign namespaces."
 )
 ASSUMPTIONS = [
     "VMX values have no leading/trailing spaces or quotes (the dictionary format strips them) and every device key has a property part",
